@@ -9,6 +9,7 @@
 use std::sync::atomic::AtomicU64;
 
 pub mod sim;
+pub mod stall;
 use sim::Op;
 
 pub use lock_api;
